@@ -99,6 +99,8 @@ def run_impl(case):
     for kk in range(K):
         run(f"alone{kk}", dict(b, extra=[], driver=[int(x) for x in d1[:, kk]], lifetime=_param_column(case, kk)))
     run("shift", dict(b, grid=[g + case["shift"] for g in b["grid"]], driver=case["d1"]))
+    if b["cls"] != "simple":
+        runs.append(dict(tag="reuse", case=dict(b, driver=case["d1"]), obs=sd.run_stock_reuse(dict(b, driver=case["d1"]), case["d2"], snap=snap)))
     return dict(kind="family", runs=runs)
 
 
@@ -125,6 +127,11 @@ def oracle(case, obs):
     def close(x, y):
         return len(x) == len(y) and all(p is not None and q is not None and abs(p - q) <= eps for p, q in zip(x, y))
 
+    # the results are a function of the driver: what the same object computed before leaves no trace
+    if "reuse" in runs:
+        for key in KEYS:
+            if not close(_get(runs["reuse"], key), _get(runs["d1"], key)):
+                return f"{g}: {key} depends on what the same stock object computed before (driver d2, then d1, differs from d1 alone)"
     # linearity: superposition + scaling, and decomposition over the impulse basis
     for key in KEYS:
         want = [case["a"] * x + case["b"] * y for x, y in zip(_get(runs["d1"], key), _get(runs["d2"], key))]
